@@ -10,7 +10,7 @@ import itertools, random
 from . import common as C
 
 PROP = "C06"
-MODULES = ["RuschmProofs.C06", "RuschmProofs.C06More"]
+MODULES = ["RuschmProofs.C06", "RuschmProofs.C06More", "RuschmProofs.C06Read"]
 ALPHA = list("()'.#\";|\\+-1ae/ ") + ["\n"]
 DELIMS = set(" \t\n\r()\";|")
 
